@@ -566,11 +566,22 @@ func (s *scope) createInstance(descriptor *Descriptor) (any, error) {
 				regKey = reg.Key
 			}
 
-			if reg.Type == descriptor.Type && regKey == descriptor.Key {
+			// The descriptor registered for this field by the same registration
+			// call; fields whose registration was removed are skipped.
+			fieldName := reg.Name
+			regDescriptor := descriptor.output(func(o *Descriptor) bool { return o.resultField == fieldName })
+			if regDescriptor != nil && !s.rootProvider.isRegistered(regDescriptor) {
+				continue
+			}
+
+			if regDescriptor == descriptor || (reg.Type == descriptor.Type && regKey == descriptor.Key) {
 				primaryService = value
 			}
 
-			regDescriptor := s.rootProvider.findDescriptor(reg.Type, regKey)
+			if regDescriptor == nil {
+				regDescriptor = s.rootProvider.findDescriptor(reg.Type, regKey)
+			}
+
 			if regDescriptor == nil {
 				return nil, &ResolutionError{
 					ServiceType: reg.Type,
@@ -580,9 +591,9 @@ func (s *scope) createInstance(descriptor *Descriptor) (any, error) {
 			}
 
 			key := instanceKey{
-				Type:  reg.Type,
-				Key:   regKey,
-				Group: reg.Group,
+				Type:  regDescriptor.Type,
+				Key:   regDescriptor.Key,
+				Group: regDescriptor.Group,
 			}
 
 			// Keep going after a failure: the remaining outputs must be
@@ -615,8 +626,18 @@ func (s *scope) createInstance(descriptor *Descriptor) (any, error) {
 
 			value := results[ret.Index].Interface()
 
-			// Find the descriptor for this return type
-			serviceDescriptor := s.rootProvider.findDescriptor(ret.Type, nil)
+			// Find the descriptor registered for this return value by the same
+			// registration call; returns whose registration was removed are skipped.
+			returnIndex := ret.Index
+			serviceDescriptor := descriptor.output(func(o *Descriptor) bool { return o.MultiReturnIndex == returnIndex })
+			if serviceDescriptor != nil && !s.rootProvider.isRegistered(serviceDescriptor) {
+				continue
+			}
+
+			if serviceDescriptor == nil {
+				serviceDescriptor = s.rootProvider.findDescriptor(ret.Type, nil)
+			}
+
 			if serviceDescriptor == nil {
 				return nil, &ResolutionError{
 					ServiceType: ret.Type,
@@ -662,7 +683,40 @@ func (s *scope) createInstance(descriptor *Descriptor) (any, error) {
 	if err := s.setInstance(descriptor, key, instance); err != nil {
 		return nil, err
 	}
+
+	// A service registered under several interface aliases is one service: the
+	// instance just created is the instance behind every alias.
+	for _, alias := range descriptor.outputs {
+		if alias != descriptor && s.rootProvider.isRegistered(alias) {
+			s.shareInstance(alias, instance)
+		}
+	}
+
 	return instance, nil
+}
+
+// shareInstance caches an instance that is already tracked for disposal under
+// the identity of another descriptor (an alias of the same registration).
+func (s *scope) shareInstance(descriptor *Descriptor, instance any) {
+	key := instanceKey{
+		Type:  descriptor.Type,
+		Key:   descriptor.Key,
+		Group: descriptor.Group,
+	}
+
+	switch descriptor.Lifetime {
+	case Singleton:
+		s.rootProvider.singletons.Store(key, instance)
+		s.rootProvider.singletonKeysMu.Lock()
+		s.rootProvider.singletonKeys = append(s.rootProvider.singletonKeys, key)
+		s.rootProvider.singletonKeysMu.Unlock()
+	case Scoped:
+		s.instancesMu.Lock()
+		if s.instances != nil {
+			s.instances[key] = instance
+		}
+		s.instancesMu.Unlock()
+	}
 }
 
 // FromContext retrieves a Scope from the context.
